@@ -935,6 +935,27 @@ func (e *SpecEnv) call(n *SCall) Value {
 			specFail("locked(): not a pointer to a struct")
 		}
 		return boolV(x.lockedTerm(e.st, v.S))
+	case "lockedw":
+		// lockedw(obj): a mutex that is a field of *obj is held exclusively (Lock, not RLock)
+		v := e.eval(n.Args[0])
+		if v.K != KRef {
+			specFail("lockedw(): not a pointer to a struct")
+		}
+		var ors []string
+		for _, k := range sortedKeys(e.st.heldRef) {
+			if e.st.held[k] != "w" {
+				continue
+			}
+			r := e.st.heldRef[k]
+			if r == v.S {
+				return boolV(tTrue)
+			}
+			ors = append(ors, mkEq(r, v.S))
+		}
+		if len(ors) == 0 {
+			return boolV(tFalse)
+		}
+		return boolV(mkOr(ors...))
 	case "heldw":
 		key := x.lockKey(e.eval(n.Args[0]))
 		if e.st.held[key] == "w" {
